@@ -8,18 +8,31 @@ class StreamSrc(Opaque):
     pass
 
 
-def find_loop_head(f):
-    """the loop body starts with `let start_poll = Instant::now()`"""
-    heads = [bid for bid, bb in f.blocks.items() if bb.term.kind == 'call' and re.search(r'Instant::now$', bb.term.data['fn'])]
-    if len(heads) != 1:
-        raise Unsupported(f"cannot locate the head of the poll loop in {f.name} ({heads})")
-    return heads[0]
+def find_loop(f):
+    """the poll loop of run_io_loop, located without relying on variable names: the loop with the largest body; its state is the
+    events buffer created before the loop (the live local of type Events), the `have written to the socket` flag (the function's
+    boolean parameter) and one further boolean carried across iterations (whether client channels are being polled)"""
+    from mirsym.liveness import loop_heads, loop_carried, live_in
+    heads = loop_heads(f)
+    if not heads:
+        raise Unsupported(f"no loop found in {f.name}")
+    head = heads[0]
+    live = live_in(f)[head]
+    argidx = {i for (i, _) in f.args}
+    events = [l for l in live if l not in argidx and re.search(r'(^|::)Events$', f.locals[l])]
+    carried = loop_carried(f, head)
+    flags = [l for l in carried if l not in argidx and f.locals[l] == 'bool']
+    written = [i for (i, ty) in f.args if ty == 'bool']
+    others = [l for l in carried if l not in argidx and l not in flags]
+    if len(events) != 1 or len(flags) != 1 or len(written) != 1 or others:
+        raise Unsupported(f"poll loop state not recognised in {f.name}: events={events} flags={flags} bool params={written} other carried locals={[(l, f.locals[l]) for l in others]}")
+    return head, events[0], flags[0], written[0]
 
 
 def loop_iteration(ctx, prog, nevents=2):
     """-> (handles dict, [(state, result)]) for one iteration from an arbitrary state satisfying the loop invariant"""
     f = prog.method('IoLoop', 'run_io_loop')
-    head = find_loop_head(f)
+    head, l_events, l_listening, l_written = find_loop(f)
     h = {}
 
     def poll_stub(ex, st, fn, argv):
@@ -114,11 +127,11 @@ def loop_iteration(ctx, prog, nevents=2):
     st.pc += [listening == chans_reg, z3.Implies(listening, z3.ULE(L0, high)), z3.Implies(z3.Not(listening), z3.UGT(L0, low)),
               z3.Implies(z3.And(L0 != 0, have_written), (stream_interest & WRITABLE) != 0)]
     h.update({'a': a, 'b': b, 'listening': listening, 'have_written': have_written, 'high': high, 'low': low, 'L0': L0, 'stream': stream,
-              'timeout_some': timeout_some, 'timeout': timeout, 'func': f, 'head': head})
+              'timeout_some': timeout_some, 'timeout': timeout, 'func': f, 'head': head, 'l_listening': l_listening, 'l_written': l_written})
     state_cell = Cell(Agg({}, 'LoopState', 'loop-state'), 'state')
     res = ex.run(st, f, [Ref(st.roots['io']), Ref(Cell(stream, 'stream')), Ref(state_cell), FnItem('verif_handle_event'), Bool(have_written), FnItem('verif_is_done')],
                  bind={'S': 'VerifStream', 'State': 'LoopState', 'F': 'VerifHandler', 'G': 'VerifDone'}, start_bb=head,
-                 locals_by_name={'events': EventsModel(), 'listening_to_channels': Bool(listening)})
+                 locals_by_index={l_events: EventsModel(), l_listening: Bool(listening)})
     return h, res
 
 
@@ -138,6 +151,6 @@ def post_state(prog, s, h):
         out['slots'].append((nm_, r[3] if r is not None else z3.BoolVal(False), r[1] if r is not None else None, info['id']))
     if getattr(s, 'cut_frames', None):
         fr = s.cut_frames[0]
-        out['listening'] = fr.locals[fr.func.debug['listening_to_channels']].value.b
-        out['have_written'] = fr.locals[fr.func.debug['have_written_to_socket']].value.b
+        out['listening'] = fr.locals[h['l_listening']].value.b
+        out['have_written'] = fr.locals[h['l_written']].value.b
     return out
